@@ -458,7 +458,7 @@ class VerifyingKey(object):
         if not oid_pk == oid_ecPublicKey:
             raise der.UnexpectedDER(
                 "Unexpected object identifier in DER "
-                "encoding: {0!r}".format(oid_pk)
+                "encoding: {0}".format(der._oid_repr(oid_pk))
             )
         curve = find_curve(oid_curve)
         point_str, empty = der.remove_bitstring(point_str_bitstring, 0)
@@ -1051,8 +1051,8 @@ class SigningKey(object):
         if der.is_sequence(s):
             if version not in (0, 1):
                 raise der.UnexpectedDER(
-                    "expected version '0' or '1' at start of privkey, got %d"
-                    % version
+                    "expected version '0' or '1' at start of privkey, got %s"
+                    % der._int_repr(version)
                 )
 
             sequence, s = der.remove_sequence(s)
@@ -1062,7 +1062,8 @@ class SigningKey(object):
 
             if algorithm_oid not in (oid_ecPublicKey, oid_ecDH, oid_ecMQV):
                 raise der.UnexpectedDER(
-                    "unexpected algorithm identifier '%s'" % (algorithm_oid,)
+                    "unexpected algorithm identifier '%s'"
+                    % der._oid_repr(algorithm_oid)
                 )
             if empty != b"":
                 raise der.UnexpectedDER(
@@ -1088,8 +1089,8 @@ class SigningKey(object):
         # The version of the ECPrivateKey must be 1.
         if version != 1:
             raise der.UnexpectedDER(
-                "expected version '1' at start of DER privkey, got %d"
-                % version
+                "expected version '1' at start of DER privkey, got %s"
+                % der._int_repr(version)
             )
 
         privkey_str, s = der.remove_octet_string(s)
